@@ -101,7 +101,7 @@ def new_stats(rule):
 def run_corpus(prop, goit, sbase, model_ok, stats):
     for name, j, steps in corpus_cases(prop):
         recs, jd = runner.replay_steps(goit, prop, steps, tz=j.get("tz", "UTC"), tz_offset=j.get("tz_offset", 0),
-                                       base=sbase, with_model=model_ok)
+                                       base=sbase, with_model=model_ok and not j.get("oracle_only"))
         stats["evaluations"] += 1
         stats["steps"] += len(recs)
         stats["distribution"]["commands"]["corpus:" + name] += 1
